@@ -211,7 +211,7 @@ def eval_recursive(case, ctx):
     n = len(acc)
     frame = case['frame'] if case['frame'] in spec.frames else spec.frames[0]
     dip = float(case['dip'])
-    P = {k: (np.array(v) if isinstance(v, list) and k == 'weights' else v) for k, v in case['P'].items()}
+    P = F.revive_params(case['P'])
     tag = F.spec_key(spec) + (f'[{frame}]' if len(spec.frames) > 1 else '')
     ctx.label(f'family={fam}', f'filter={F.spec_key(spec)}')
     ctx.nt(n >= 3 and (fam != 'random' or bool(P)))
